@@ -452,13 +452,14 @@ variable (fs : List CDir) (stem : CFile → String) (hdisc : ∀ e, (Py.split1 '
 include hdisc
 
 /-- **`CIACache.load_cia_from_path(path, pair_filter=[m])` is `loadDir fs m`**: the `*.db` files of the directory, then its
-    `*.cia` files; every file whose stem up to the first `_` is `m` is constructed and handed to `add_cia`, whose exception
-    ends the function with the cache as it is then -/
+    `*.cia` files; every file whose stem up to the first `_` is `m` — unless `m` is cached by then (fix d5856f4: the first
+    container found is the one served) — is constructed and handed to `add_cia`, whose exception (a `.cia` file whose headers
+    name another, cached pair) ends the function with the cache as it is then -/
 theorem src_cia_load_from_path (s : St) (m : String) (p : Nat) :
     Gen.SrcC14.CIACache_load_cia_from_path (CPath.single p) (some [m]) () () s.dict constructH constructP (globC fs)
         (fun o => o.pair) Prod.mk stem (s.log, s.nextId)
       = (encC (loadDir fs m s p).1, excB (loadDir fs m s p).2) := by
-  unfold Gen.SrcC14.CIACache_load_cia_from_path loadDir
+  unfold Gen.SrcC14.CIACache_load_cia_from_path loadDir loadDirWith
   simp only [Option.elim_some, Prod.eta]
   generalize hR : Py.forE (globC fs (s.log, s.nextId) (CPath.single p, "*.db")) _ _ = R
   have key : R = (encC (forB (loadStep m) s (dirFiles fs p .db)).1,
@@ -475,10 +476,14 @@ theorem src_cia_load_from_path (s : St) (m : String) (p : Nat) :
       have hf := addCia_frame { t with nextId := t.nextId + 1, log := t.log ++ [(e.disc, e.fileId)] }
         { id := t.nextId, pair := e.disc, src := some e.fileId }
       simp only [] at ha
-      simp only [decide_true, Bool.not_true, Bool.false_eq_true, if_false, beq_self_eq_true, if_true, ho, ha]
-      rw [hf]
-      cases (addCia { t with nextId := t.nextId + 1, log := t.log ++ [(e.disc, e.fileId)] }
-        { id := t.nextId, pair := e.disc, src := some e.fileId }).2 <;> simp [excB]
+      cases hkc : Py.dhas t.dict e.disc with
+      | true => simp [chasKey_eq_dhas, hkc]
+      | false =>
+        simp only [decide_true, Bool.not_true, Bool.false_eq_true, if_false, beq_self_eq_true, if_true, ho, ha,
+          chasKey_eq_dhas, hkc, Bool.not_false, Bool.and_self]
+        rw [hf]
+        cases (addCia { t with nextId := t.nextId + 1, log := t.log ++ [(e.disc, e.fileId)] }
+          { id := t.nextId, pair := e.disc, src := some e.fileId }).2 <;> simp [excB]
     · have : (e.disc == m) = false := by simpa using hd
       simp [hd, this]
   rw [key]
@@ -502,10 +507,14 @@ theorem src_cia_load_from_path (s : St) (m : String) (p : Nat) :
         have hf := addCia_frame { t with nextId := t.nextId + 1, log := t.log ++ [(e.disc, e.fileId)] }
           { id := t.nextId, pair := e.obj, src := some e.fileId }
         simp only [] at ha
-        simp only [decide_true, Bool.not_true, Bool.false_eq_true, if_false, beq_self_eq_true, if_true, ho, ha]
-        rw [hf]
-        cases (addCia { t with nextId := t.nextId + 1, log := t.log ++ [(e.disc, e.fileId)] }
-          { id := t.nextId, pair := e.obj, src := some e.fileId }).2 <;> simp [excB]
+        cases hkc : Py.dhas t.dict e.disc with
+        | true => simp [chasKey_eq_dhas, hkc]
+        | false =>
+          simp only [decide_true, Bool.not_true, Bool.false_eq_true, if_false, beq_self_eq_true, if_true, ho, ha,
+            chasKey_eq_dhas, hkc, Bool.not_false, Bool.and_self]
+          rw [hf]
+          cases (addCia { t with nextId := t.nextId + 1, log := t.log ++ [(e.disc, e.fileId)] }
+            { id := t.nextId, pair := e.obj, src := some e.fileId }).2 <;> simp [excB]
       · have : (e.disc == m) = false := by simpa using hd
         simp [hd, this]
     rw [key2]
@@ -518,33 +527,33 @@ theorem src_cia_load_cia (s : St) (m : String) :
     Gen.SrcC14.CIACache_load_cia (some [m]) () () s.dict s.path constructH constructP (globC fs) isList isStr
         (fun o => o.pair) pathItems Prod.mk stem (s.log, s.nextId)
       = (encC (loadCia fs m s).1, excB (loadCia fs m s).2) := by
-  unfold Gen.SrcC14.CIACache_load_cia loadCia
+  unfold Gen.SrcC14.CIACache_load_cia loadCia loadCiaWith
   cases hp : s.path with
   | none => simp [encC, excB]
   | some q =>
     cases q with
     | single p =>
-      simp only [Option.elim_some, isStr, if_true, src_cia_load_from_path fs stem hdisc s m p, encC]
-      rcases loadDir fs m s p with ⟨s1, b1⟩
+      simp only [Option.elim_some, isStr, if_true, src_cia_load_from_path fs stem hdisc s m p, encC, loadDir]
+      rcases loadDirWith loadStep fs m s p with ⟨s1, b1⟩
       cases b1 <;> simp [excB]
     | many ps =>
       simp only [Option.elim_some, isStr, isList, Bool.false_eq_true, if_false, if_true, pathItems, Prod.eta]
       generalize hR : Py.forE (ps.map CPath.single) _ _ = R
-      have key : R = (encC (forB (loadDir fs m) s ps).1,
-          if (forB (loadDir fs m) s ps).2 then some Py.Err.exception else none) := by
+      have key : R = (encC (forB (loadDirWith loadStep fs m) s ps).1,
+          if (forB (loadDirWith loadStep fs m) s ps).2 then some Py.Err.exception else none) := by
         rw [← hR]
-        have hb : forB (loadDir fs m) s ps = forB (fun t (q : CPath) => match q with
-            | .single p => loadDir fs m t p
+        have hb : forB (loadDirWith loadStep fs m) s ps = forB (fun t (q : CPath) => match q with
+            | .single p => loadDirWith loadStep fs m t p
             | .many _ => (t, false)) s (ps.map CPath.single) := by rw [forB_map]
         rw [hb]
         refine forE_simB encC _ Py.Err.exception _ (ps.map CPath.single) (fun t q hq => ?_) s
         obtain ⟨p, _, rfl⟩ := List.mem_map.1 hq
         have h := src_cia_load_from_path fs stem hdisc t m p
-        simp only [encC] at h ⊢
+        simp only [encC, loadDir] at h ⊢
         simp only [h]
-        cases (loadDir fs m t p).2 <;> simp [excB]
+        cases (loadDirWith loadStep fs m t p).2 <;> simp [excB]
       rw [key]
-      rcases forB (loadDir fs m) s ps with ⟨s1, b1⟩
+      rcases forB (loadDirWith loadStep fs m) s ps with ⟨s1, b1⟩
       cases b1 <;> simp [encC, excB]
 
 /-- **`CIACache()[m]` is `CiaSM.step fs s (.get m)`**: a cached pair is served as it is; otherwise the path is searched; an
@@ -555,12 +564,12 @@ theorem src_cia_getitem (s : St) (m : String) :
         (fun o => o.pair) pathItems Prod.mk stem (s.log, s.nextId)
       = (encC (step fs s (.get m)).1, respC (step fs s (.get m)).2) := by
   unfold Gen.SrcC14.CIACache_getitem
-  simp only [step, clookup_eq_dget, dhas_eq_isSome', Py.dgetE]
+  simp only [step, stepWith, clookup_eq_dget, dhas_eq_isSome', Py.dgetE]
   cases h1 : Py.dget s.dict m with
   | some o => simp [encC, respC]
   | none =>
-    simp only [Option.isSome_none, Bool.false_eq_true, if_false, src_cia_load_cia fs stem hdisc s m, encC]
-    rcases loadCia fs m s with ⟨s1, b1⟩
+    simp only [Option.isSome_none, Bool.false_eq_true, if_false, src_cia_load_cia fs stem hdisc s m, encC, loadCia]
+    rcases loadCiaWith loadStep fs m s with ⟨s1, b1⟩
     cases b1 with
     | true => simp [excB, respC]
     | false =>
@@ -585,7 +594,7 @@ theorem src_cia_add (fs : List CDir) (s : St) (m : String) :
   have h := src_cia_add_cia { s with nextId := s.nextId + 1 } { id := s.nextId, pair := m, src := none }
   simp only [] at h
   rw [h]
-  simp only [step]
+  simp only [step, stepWith]
   rcases addCia { s with nextId := s.nextId + 1 } { id := s.nextId, pair := m, src := none } with ⟨s', b⟩
   cases b <;> simp [excB]
 
